@@ -25,11 +25,14 @@ pub struct EpochRun {
     pub hooks: Vec<Addr>,
     pub dur: u64,
     pub genesis: u64,
+    /// id of the epoch the manager is instantiated with (0 for the distributor)
+    pub first: u64,
     pub user: Addr,
 }
 
 impl EpochRun {
-    pub fn new(kind: &str, dur: u64, genesis_offset: u64) -> EpochRun {
+    pub fn new(kind: &str, dur: u64, genesis_offset: u64, first: u64) -> EpochRun {
+        let first = if kind == "manager" { first } else { 0 };
         let mut w = World::new();
         let now = w.now_nanos();
         let genesis = now + genesis_offset;
@@ -42,7 +45,7 @@ impl EpochRun {
                 w.codes.epoch_manager,
                 w.owner.clone(),
                 &InstantiateMsg {
-                    start_epoch: EpochV2 { id: 0, start_time: Timestamp::from_nanos(genesis) },
+                    start_epoch: EpochV2 { id: first, start_time: Timestamp::from_nanos(genesis) },
                     epoch_config: EpochConfig { duration: Uint64::new(dur), genesis_epoch: Uint64::new(genesis) },
                 },
                 &[],
@@ -62,7 +65,7 @@ impl EpochRun {
             let hub = w.new_hub(3, dur, genesis, "uwhale", &["uwhale"], 1_000_000_000_000);
             hub.distributor
         };
-        EpochRun { w, kind: kind.to_string(), clock, hooks, dur, genesis, user }
+        EpochRun { w, kind: kind.to_string(), clock, hooks, dur, genesis, first, user }
     }
 
     pub fn current(&self) -> (u64, u64) {
@@ -102,7 +105,16 @@ impl EpochRun {
                 logs.insert(h.into(), json!([]));
             }
         }
-        json!({"id": id.to_string(), "start": start.to_string(), "now": self.w.now_nanos().to_string(),
+        // the manager also answers for past epochs by id: the last few, from the first one on
+        let mut byid: Vec<Value> = vec![];
+        if self.kind == "manager" {
+            for k in id.saturating_sub(3).max(self.first)..=id {
+                if let Ok(r) = self.w.query::<EpochResponse, _>(&self.clock, &QueryMsg::Epoch { id: k }) {
+                    byid.push(json!({"id": r.epoch.id.to_string(), "asked": k.to_string(), "start": r.epoch.start_time.nanos().to_string()}));
+                } else { byid.push(json!({"id": "none", "asked": k.to_string(), "start": "0"})); }
+            }
+        }
+        json!({"id": id.to_string(), "start": start.to_string(), "now": self.w.now_nanos().to_string(), "byid": byid,
                "hooks": registered, "logs": Value::Object(logs)})
     }
 
@@ -176,7 +188,7 @@ const DURS: [u64; 3] = [DAY, DAY + 1, 7 * DAY];
 fn reset(rec: &mut Rec, p: &EpochRun, seed: u64, run: u64, sched: Option<&str>, table: usize) {
     let mut base = json!({"ev": "reset", "suite": "epochs", "run": run, "seed": seed.to_string(), "table": table,
         "extra": {"kind": p.kind},
-        "cfg": {"kind": p.kind, "dur": p.dur.to_string(), "genesis": p.genesis.to_string()},
+        "cfg": {"kind": p.kind, "dur": p.dur.to_string(), "genesis": p.genesis.to_string(), "first": p.first.to_string()},
         "obs": p.obs()});
     if let Some(l) = sched {
         base.as_object_mut().unwrap().insert("sched".into(), serde_json::from_str::<Value>(l).unwrap());
@@ -189,7 +201,7 @@ pub fn run_schedule(rec: &mut Rec, seed: u64, run: u64, kind: &str, line: &str, 
     let ops = v["ops"].as_array().unwrap();
     let dur = DURS[table % DURS.len()];
     let goff = [3 * DAY / 4 + 879_305_533, 1, 10 * DAY + 500_000_000][(table / DURS.len()) % 3];
-    let mut p = EpochRun::new(kind, dur, goff);
+    let mut p = EpochRun::new(kind, dur, goff, [0u64, 1, 5][(table + table / 3) % 3]);
     reset(rec, &p, seed, run, Some(line), table);
     for (i, o) in ops.iter().enumerate() {
         let op = o["op"].as_str().unwrap();
@@ -204,7 +216,7 @@ pub fn run_random(rec: &mut Rec, seed: u64, run: u64, kind: &str, nops: usize) {
     let table = r.gen_range(0..9usize);
     let dur = DURS[table % 3];
     let goff = [3 * DAY / 4 + 879_305_533, 1, 10 * DAY + 500_000_000][(table / 3) % 3];
-    let mut p = EpochRun::new(kind, dur, goff);
+    let mut p = EpochRun::new(kind, dur, goff, [0u64, 1, 5][(table + table / 3) % 3]);
     reset(rec, &p, seed, run, None, table);
     for step in 0..nops {
         match r.gen_range(0..100) {
